@@ -72,7 +72,23 @@ def workflow_json(wf):
 
 
 def machine_ids(cfg):
+    """machine ids; cfg['mids'] may name them explicitly (e.g. numbered per
+    category, 'cat0_m0', 'cat1_m0', as the repository's configs do)"""
+    if cfg.get("mids"):
+        return list(cfg["mids"])
     return ["m%d" % i for i in range(len(cfg["machines"]))]
+
+
+def percat_ids(n):
+    """ids numbered per category: cat0_m0, cat1_m0, cat1_m1, cat2_m0 ..."""
+    out, cat, k = [], 0, 0
+    while len(out) < n:
+        out.append("cat%d_m%d" % (cat, k))
+        if k >= cat:
+            cat, k = cat + 1, 0
+        else:
+            k += 1
+    return out
 
 
 def config_json(cfg, wf_files):
